@@ -113,6 +113,13 @@ Proof.
 Qed.
 Print Assumptions C11_transient_fault_loses_only_the_rejected_records.
 
+(* an explicit flush() between two messages (SimplePipeline::flush, any configuration) changes no content
+   and no filter: it only moves records from the buffers to the files, so the scenarios of the check may
+   interleave flush() calls freely without changing what the property demands *)
+Theorem C11_explicit_flush_changes_no_content : forall cfg t, view (root_flush cfg t) = view t.
+Proof. exact (fun cfg t => tview_root_flush cfg t []). Qed.
+Print Assumptions C11_explicit_flush_changes_no_content.
+
 (* null handler entries change nothing: the same files as without them *)
 Theorem C11_null_entries_are_inert : forall pol rej l msgs r,
   survivors (run_fatal src_fatal_cfg pol rej (TPipe (TNull :: l)) msgs r)
